@@ -411,7 +411,9 @@ def build_fgg(ag, kind='real', dtype=None, *, rule_order=None, implicit_ids=Fals
     info['add_deferred'] = lambda: [add_rule_ix(ri) for ri in deferred]
     if with_interp:
         for n, size in ag['nls'].items():
-            if finite_domains:
+            if finite_domains == 'tuple':
+                g.add_domain(nl[n], FiniteDomain([(n, i) for i in range(size)]))      # compound (tuple) values
+            elif finite_domains:
                 g.add_domain(nl[n], FiniteDomain([f'{n}{i}' for i in range(size)]))
             else:
                 g.add_domain(nl[n], RangeDomain(size))
